@@ -2577,7 +2577,8 @@ class C11(Prop):
         # wrong-kind arguments
         kinds = ["(int 1)", "(float 15 1)", self.sval("s"), "(bool 1)", "(nil)", "(arr (int 1))", "(obj (k (int 1)))"]
         fns = [("(str %s 1)" % hx("abc"), f) for f in ["split", "trim", "contains", "truncate", "decimal", "at", "repeat"]] + \
-              [("(arr (int 1) (int 2))", f) for f in ["join", "slice", "contains", "append", "prepend"]] + [("(bool 1)", "then")]
+              [("(arr (int 1) (int 2))", f) for f in ["join", "slice", "contains", "append", "prepend"]] + [("(bool 1)", "then")] + \
+              [("(str %s 1)" % hx("12"), "decimal"), ("(int 7)", "decimal"), ("(str - 1)", "decimal")]
         for r, fn in fns:
             cases.append(("xexpr", "(call %s %s)" % (r, fn)))
             for a in kinds:
